@@ -33,6 +33,10 @@ type funcFP struct {
 	Sig     string   `json:"sig"`
 	Callees []string `json:"callees,omitempty"`
 	Callers []string `json:"callers,omitempty"`
+	// Uses: the exported struct fields the body selects and the functions outside the module
+	// it calls — what tells apart two leaf helpers with the same signature and the same
+	// single caller when both are renamed at once
+	Uses []string `json:"uses,omitempty"`
 }
 
 type fieldFP struct {
@@ -182,13 +186,30 @@ func (c *Ctx) currentFingerprints() *anchorTable {
 	callees := map[string]map[string]bool{}
 	callers := map[string]map[string]bool{}
 	fieldUsers := map[*types.Var]map[string]bool{}
+	uses := map[string]map[string]bool{}
 	for _, u := range c.Funcs(nil) {
 		if u.Decl == nil || u.Decl.Body == nil {
 			continue
 		}
 		name := u.Name()
 		info := u.Pkg.TypesInfo
+		use := func(s string) {
+			if uses[name] == nil {
+				uses[name] = map[string]bool{}
+			}
+			uses[name][s] = true
+		}
 		ast.Inspect(u.Decl.Body, func(n ast.Node) bool {
+			switch x := n.(type) {
+			case *ast.CallExpr:
+				if f := originOf(Callee(info, x)); f != nil && f.Pkg() != nil && !strings.HasPrefix(f.Pkg().Path(), modPath) {
+					use("call:" + f.Pkg().Path() + "." + f.Name())
+				}
+			case *ast.SelectorExpr:
+				if f := FieldOfSelector(info, x); f != nil && f.Exported() {
+					use("field:" + f.Name())
+				}
+			}
 			switch x := n.(type) {
 			case *ast.CallExpr:
 				if f := originOf(Callee(info, x)); f != nil && f.Pkg() != nil && strings.HasPrefix(f.Pkg().Path(), modPath) {
@@ -247,7 +268,7 @@ func (c *Ctx) currentFingerprints() *anchorTable {
 			sort.Strings(out)
 			return out
 		}
-		t.Funcs[name] = funcFP{Pkg: rel(u.Pkg.PkgPath), Recv: recvString(u.Obj), Sig: sigString(u.Obj), Callees: selfless(keys(callees[name])), Callers: selfless(keys(callers[name]))}
+		t.Funcs[name] = funcFP{Pkg: rel(u.Pkg.PkgPath), Recv: recvString(u.Obj), Sig: sigString(u.Obj), Callees: selfless(keys(callees[name])), Callers: selfless(keys(callers[name])), Uses: keys(uses[name])}
 	}
 	for _, p := range c.Pkgs {
 		if p.Types == nil || !strings.HasPrefix(p.PkgPath, modPath) {
@@ -341,6 +362,29 @@ func (c *Ctx) renamedFuncWith(name string, known map[string]string) *types.Func 
 	}
 	if len(cands) == 0 || cands[0].score < 0.5 {
 		return nil
+	}
+	if len(cands) > 1 && cands[1].score > cands[0].score-0.2 {
+		// look-alikes with one neighbourhood (leaf helpers of one caller): what each body
+		// touches tells them apart
+		if oldFP, ok := loadAnchorFPs().Funcs[name]; ok && len(oldFP.Uses) > 0 {
+			cur := c.currentFingerprints()
+			bi, bs, second := -1, -1.0, -1.0
+			for i, cd := range cands {
+				if cd.score <= cands[0].score-0.2 {
+					continue
+				}
+				r := jaccard(oldFP.Uses, cur.Funcs[cd.name].Uses)
+				if r > bs {
+					second, bs, bi = bs, r, i
+				} else if r > second {
+					second = r
+				}
+			}
+			if bi >= 0 && bs >= 0.5 && second <= bs-0.2 {
+				cands[0], cands[bi] = cands[bi], cands[0]
+				cands = cands[:1]
+			}
+		}
 	}
 	if len(cands) > 1 && cands[1].score > cands[0].score-0.2 {
 		// several look-alikes (siblings renamed together): the spelling breaks the tie,
@@ -521,6 +565,21 @@ func (c *Ctx) renamedField(name string) *types.Var {
 		}
 		if b0 >= 0.4 && b1 <= b0-0.15 {
 			best, second = bn, 0
+		}
+	}
+	if best != "" && bestScore < 0.5 && len(fcands) == 1 {
+		// the only new field of this struct and type, and the only audited field of this
+		// struct and type that is gone: the same field, whatever its users were split into
+		gone := 0
+		for on, ofp := range loadAnchorFPs().Fields {
+			if ofp.Struct == old.Struct && ofp.Type == old.Type {
+				if _, still := cur.Fields[on]; !still {
+					gone++
+				}
+			}
+		}
+		if gone == 1 && bestScore >= 0.1 {
+			bestScore, second = 0.5, 0
 		}
 	}
 	if best == "" || bestScore < 0.5 || second > bestScore-0.2 {
